@@ -571,6 +571,8 @@ def _run_monitor(ctx, R, tier, t_start):
             minimised[(sig, v)] = (cur, info)
 
     crash_report = []
+    unconfirmed = []
+    ctx.c13_unconfirmed = unconfirmed
     kdir = os.path.join(BUILD, "c13-replays")
     os.makedirs(kdir, exist_ok=True)
     for sig, e in by_sig.items():
@@ -584,6 +586,13 @@ def _run_monitor(ctx, R, tier, t_start):
                           "signature": sig, "variant": v, "panic": res["head"], "occurrences": ve["count"], "minimise": info,
                           "trace_when_found": "\n".join([l for l in res["stderr"].splitlines() if l.strip()][:40]),
                           "how_to_replay": "python3 tools/check.py C13 --replay <this file>"}
+                if (sig.startswith("hang:") or sig.startswith("probe:")) and info.get("reproduced") is False and not is_known(sig):
+                    # a hang / failed probe is recognised by time-outs only (no panic trace): when the streams that were in
+                    # flight do not reproduce it in three isolated re-runs it was the machine's load, not the input
+                    unconfirmed.append({"signature": sig, "variant": v, "occurrences": ve["count"], "minimise": info})
+                    ventry["status"] = "not reproduced in isolation (timing): not reported"
+                    entry["variants"].append(ventry)
+                    continue
                 nbytes = sum(len(s.data()) for s in cur)
                 what = "%s in %s — %d occurrence(s) of this signature; minimal input: %d stream(s), %d bytes [%s]" % (
                     res["head"], sig.split(":", 1)[1], e["count"], len(cur), nbytes, v)
@@ -623,6 +632,7 @@ def _run_monitor(ctx, R, tier, t_start):
         "workers": R.nworkers,
         "corpus": corpus_results,
         "crash_signatures": crash_report,
+        "timing_events_not_reproduced_in_isolation": unconfirmed,
         "input_distribution": {
             "by_generator": dict(d["origin"]), "units": dict(d["unit"].most_common(80)),
             "data_frame_length_classes": dict(d["datalen_class"]),
